@@ -187,7 +187,7 @@ deriving DecidableEq, Repr
 /-- One SMTP command against an endpoint with `authAlwaysRequired = required`; reply code
 (final reply for DATA, whose body is always well-formed and accepted by the pipeline). -/
 def connStep (required : Bool) (s : Conn) : Cmd → Conn × Nat
-  | .ehlo => ({ s with helo := true, authUser := [] }, 250)     -- handleGreet: NewSession replaces the session
+  | .ehlo => ({ s with helo := true }, 250)     -- handleGreet: NewSession hands back the session the connection already has (fix e064dc2)
   | .noop => (s, 250)
   | .rset => ({ s with fromReceived := false, rcpts := 0 }, 250)
   | .auth r =>
@@ -199,6 +199,8 @@ def connStep (required : Bool) (s : Conn) : Cmd → Conn × Nat
   | .mail =>
     if !s.helo then (s, 502)
     else if required && s.authUser = [] then (s, 502)             -- Session.Mail: smtp.ErrAuthRequired
+    else if s.rcpts > 0 then (s, 503)                             -- Session.Mail: s.delivery != nil, "Nested MAIL command" (fix 621600d;
+                                                                  -- with defer_sender_reject the delivery starts at the first RCPT)
     else ({ s with fromReceived := true }, 250)
   | .rcpt =>
     if !s.fromReceived then (s, 502)
